@@ -69,6 +69,20 @@ for cval in [0.0, 1.0, 0.1, 0.3, 7.7, -2.6, 1e10 / 3, 1e-7, 123456.789]:
             q = Q.quantize_real(x, target_mean=tm, target_std=13.6, num_bits=8)
             R.check('zero-variance/maps-to-target-mean', dict(const=cval, n=n, target_mean=tm), bool(np.all(q == tm)) and not np.any(np.isnan(q)),
                     [int(q.min()), int(q.max())], tm)
+# a data mean that is huge compared with the deviation: the output still follows the exact affine map (exact rational reference)
+from fractions import Fraction as _Fr
+for (mean, std, tstd) in ((2.0 ** 50, 4.1, 29.3), (-2.0 ** 52, 64.3, 11.7), (1e9, 1.3e-6, 3.9)):
+    xs = mean + std * np.linspace(-3, 3, 257)
+    q = Q.quantize_real(xs, target_mean=0.25, target_std=tstd, num_bits=8, data_mean=mean, data_std=std)
+    bad = 0
+    for xv, qv in zip(xs, q):
+        ex = _Fr(tstd) / _Fr(std) * (_Fr(float(xv)) - _Fr(mean)) + _Fr(0.25)
+        if abs((ex % 1) - _Fr(1, 2)) < _Fr(1, 10 ** 6):
+            continue                         # too close to a rounding tie to call
+        want = min(max(round(ex), -128), 127)
+        bad += int(qv) != want
+    R.check('quantize_real/huge-mean-to-deviation-ratio-follows-the-exact-affine-map', dict(mean=mean, std=std, target_std=tstd), bad == 0, bad, 0)
+
 # numeric extremes: huge finite samples saturate at the ends of the code range (and keep the order), with explicit statistics
 for b in (2, 4, 8):
     for big in (1e19, 1e25, 1e300):
